@@ -41,7 +41,7 @@ def weights_positive():
 @lemma(overrides=OV, stubs=ST, gen=GEN)
 def mass_fractions_sum_to_one(a: float, b: float, c: float):
     weights_positive()
-    assume(a >= 0 and b >= 0 and c >= 0)
+    assume(a >= 0 and b >= 0 and c >= 0)  # (P) number densities are not negative
     mf = densityTools.getMassFractions({"A": a, "B": b, "C": c})
     total = mf["A"] + mf["B"] + mf["C"]
     if a + b + c > 0:
@@ -65,7 +65,8 @@ def number_densities_and_mass_fractions_are_inverse(a: float, b: float, rho: flo
 @lemma(overrides=OV, stubs=ST, gen=GEN)
 def normalised_input_gives_the_same_densities(a: float, b: float, c: float, rho: float):
     weights_positive()
-    assume(a > 0 and b >= 0 and c >= 0 and rho > 0)
+    # (P) fractions not negative, (S) not all zero (their sum is the divisor of the normalisation); whichever nuclide carries the mass
+    assume(a >= 0 and b >= 0 and c >= 0 and a + b + c > 0 and rho > 0)
     s = a + b + c
     nd1 = densityTools.getNDensFromMasses(rho, {"A": a, "B": b, "C": c}, normalize=1.0)
     nd2 = densityTools.getNDensFromMasses(rho, {"A": a / s, "B": b / s, "C": c / s})
@@ -84,6 +85,18 @@ def mass_in_grams_and_number_density_are_inverse(N: float, V: float):
     assert eq(densityTools.getMassInGrams("B", V, None), 0.0)
     # linear in volume and density
     assert eq(densityTools.getMassInGrams("B", 2.0 * V, N), 2.0 * m)
+
+
+@lemma(overrides=OV, stubs=ST, gen={"N": [0.0, 0.0, 1e-9, 0.003, 0.1], "V": (-200.0, 500.0)})
+def mass_in_grams_and_number_density_are_inverse_for_signed_volumes(N: float, V: float):
+    """the same without sign hypotheses: the volume may be NEGATIVE (gap components), the density zero; the only
+    hypothesis is (S) the divisor of calculateNumberDensity, V != 0"""
+    weights_positive()
+    assume(N >= 0 and V != 0)
+    m = densityTools.getMassInGrams("B", V, N)
+    assert (m > 0) == (N > 0 and V > 0) and (m < 0) == (N > 0 and V < 0), "the mass has the sign of the volume"
+    assert eq(densityTools.calculateNumberDensity("B", m, V), N), "calculateNumberDensity inverts getMassInGrams"
+    assert eq(densityTools.getMassInGrams("B", -V, N), -m) and eq(densityTools.getMassInGrams("B", 2.0 * V, N), 2.0 * m)
 
 
 @lemma(overrides=OV, stubs=ST)
